@@ -267,7 +267,7 @@ func (fs *fsMutable) ForgetInode(
 	n := e.(*nodeEntry)
 
 	n.lock.Lock()
-	n.refCount--
+	n.refCount -= int(op.N) // the kernel forgets N lookups at once
 
 	if n.refCount < 0 {
 		panic(fmt.Sprintf("RefCount below zero %d", op.Inode))
